@@ -273,28 +273,63 @@ theorem C06_e_repeat {s : Store} {name p : String} {cl : Cluster}
     takeoverMaster (takeoverMaster s name p).1 name p = ((takeoverMaster s name p).1.bump, R.ok ()) :=
   takeoverMaster_repeat hcl hf
 
-/-- **(e) repeat calls of the API.** If `replace_failed_proxy` found no replacement (error), calling it
+/-- **(e) repeat calls of the API** (normal mode; `C06_e_repeat_failover_ordered` is the ordered-mode
+counterpart). If `replace_failed_proxy` found no replacement (error), calling it
 again — with any choice — and again finding none changes nothing but the global epoch. -/
 theorem C06_e_repeat_failover {s : Store} {p choice choice' name : String} {pr : ProxyRes}
-    {cl : Cluster} {k h : Nat} (hp : s.findProxy p = some pr) (hc : pr.cluster = some name)
+    {cl : Cluster} {k h : Nat} (ho : s.ordered = false)
+    (hp : s.findProxy p = some pr) (hc : pr.cluster = some name)
     (hcl : s.findCluster name = some cl) (hf : failedAt p cl.chunks = some (k, h))
     (hno : ∀ a, (replaceFailedProxy s p choice).2 ≠ R.ok (some a))
     (hno' : ∀ a, (replaceFailedProxy (replaceFailedProxy s p choice).1 p choice').2 ≠ R.ok (some a)) :
     (replaceFailedProxy (replaceFailedProxy s p choice).1 p choice').1 = (replaceFailedProxy s p choice).1.bump := by
   obtain ⟨c, hk, hh, -⟩ := failedAt_some hf
   rcases replaceFailedProxy_cases (choice := choice) hp hc hcl hf hk with
-    ⟨hfind, -, -, hfailed, hprox, -, hs1⟩ | ⟨np, c1, -, -, -, hr, -⟩
+    ⟨-, hfind, -, -, hfailed, hprox, -, hs1⟩ | ⟨-, np, c1, -, -, -, hr, -⟩ | ⟨ho', -⟩
   · generalize (replaceFailedProxy s p choice).1 = s1 at *
     have hp1 : s1.findProxy p = some pr := by unfold Store.findProxy at *; rw [hprox]; exact hp
     obtain ⟨c1, hk1, hr1, hf1, -⟩ := afterTakeover_chunk (e := s.globalEpoch + 1) hf hk
     rcases replaceFailedProxy_cases (choice := choice') hp1 hc hfind hf1 hk1 with
-      ⟨-, -, -, -, -, -, hs2⟩ | ⟨np, c2, -, -, -, hr, -⟩
+      ⟨-, -, -, -, -, -, -, hs2⟩ | ⟨-, np, c2, -, -, -, hr, -⟩ | ⟨ho2, -⟩
     · rw [hs2, takeoverMaster_eq hfind hf1 hk1, if_pos hr1]
       unfold markFailed
       have : (s1.bump.failed.contains p) = true := by simpa using hfailed
       simp only [this, if_true]
     · exact absurd hr (hno' _)
+    · -- the mode does not change
+      exfalso
+      have : s1.ordered = s.ordered := by
+        rw [hs1]; exact Ord.takeoverMaster_ordered s name p
+      rw [this, ho] at ho2; cases ho2
   · exact absurd hr (hno _)
+  · rw [ho] at ho'; cases ho'
+
+/-- **(e) repeat calls of the API, ordered mode** (`enable_ordered_proxy`): the call never installs a
+replacement; a repeated call runs the early-`return` takeover (one epoch bump) and the second
+`bump_global_epoch` of `replace_failed_proxy`, and changes nothing else. -/
+theorem C06_e_repeat_failover_ordered {s : Store} {p choice choice' name : String} {pr : ProxyRes}
+    {cl : Cluster} {k h : Nat} (ho : s.ordered = true)
+    (hp : s.findProxy p = some pr) (hc : pr.cluster = some name)
+    (hcl : s.findCluster name = some cl) (hf : failedAt p cl.chunks = some (k, h)) :
+    (replaceFailedProxy (replaceFailedProxy s p choice).1 p choice').1 =
+      (replaceFailedProxy s p choice).1.bump.bump ∧
+    (replaceFailedProxy (replaceFailedProxy s p choice).1 p choice').2 = R.ok none := by
+  obtain ⟨c, hk, hh, -⟩ := failedAt_some hf
+  rcases replaceFailedProxy_cases (choice := choice) hp hc hcl hf hk with
+    ⟨ho', -⟩ | ⟨ho', -⟩ | ⟨-, hfind, -, -, -, hprox, -, hs1⟩
+  · rw [ho] at ho'; cases ho'
+  · rw [ho] at ho'; cases ho'
+  · have hord1 : (replaceFailedProxy s p choice).1.ordered = true := by
+      rw [Ord.replaceFailedProxy_ordered]; exact ho
+    generalize (replaceFailedProxy s p choice).1 = s1 at *
+    have hp1 : s1.findProxy p = some pr := by unfold Store.findProxy at *; rw [hprox]; exact hp
+    obtain ⟨c1, hk1, hr1, hf1, -⟩ := afterTakeover_chunk (e := s.globalEpoch + 1) hf hk
+    rcases replaceFailedProxy_cases (choice := choice') hp1 hc hfind hf1 hk1 with
+      ⟨ho2, -⟩ | ⟨ho2, -⟩ | ⟨-, -, hr2, -, -, -, -, hs2⟩
+    · rw [hord1] at ho2; cases ho2
+    · rw [hord1] at ho2; cases ho2
+    · refine ⟨?_, hr2⟩
+      rw [hs2, takeoverMaster_eq hfind hf1 hk1, if_pos hr1]
 
 /-- **(f) allocation never hands out failed or reported proxies.** The two allocators accept only
 members of `Store.freeProxies`, which are exactly the registered proxies that are in no cluster,
@@ -359,19 +394,24 @@ theorem C06_g_balance {s : Store} {name : String} {cl : Cluster}
 /-- **C06 for the API call `replace_failed_proxy`** (= `takeover_master`, mark failed, optional
 replacement). For a registered proxy `p` tagged with cluster `name`, sitting on half `h` of chunk `k`
 of that cluster (`PosInv`, distinct proxy addresses): whatever the call returns, `p` is marked
-failed, the cluster found afterwards has a view `v'` with the same number of nodes, and for node
+failed (normal mode; in ordered mode — `enable_ordered_proxy` — the failed set is untouched and the
+call answers `Ok(None)`: the takeover happens, a replacement never), the cluster found afterwards
+has a view `v'` with the same number of nodes, and for node
 `j` of chunk `i` (`n` before, `np` its peer before, `n'` after):
 * the ranges are redistributed exactly as in (a);
 * the role is: replica on the failed half of chunk `k`, master on the partner half, unchanged elsewhere;
 * outside the failed half address and proxy are unchanged; on the failed half the node was served
-  by `p` and afterwards either still is (no replacement: the call returned an error) or is served by
+  by `p` and afterwards either still is (no replacement: the call returned an error, or, in ordered
+  mode, `Ok(None)`) or (normal mode only) is served by
   the returned replacement proxy, which was free, not failed and unreported before the call;
 * no node served by `p` is master or holds a slot range. -/
 theorem C06_failover {s : Store} {p choice name : String} {pr : ProxyRes} {cl : Cluster}
     {k h : Nat} {c : Chunk} (hp : s.findProxy p = some pr) (hc : pr.cluster = some name)
     (hcl : s.findCluster name = some cl) (hpos : PosInv cl) (hnd : cl.proxyAddrs.Nodup)
     (hf : failedAt p cl.chunks = some (k, h)) (hk : cl.chunks[k]? = some c) :
-    p ∈ (replaceFailedProxy s p choice).1.failed ∧
+    (if s.ordered = true then
+        (replaceFailedProxy s p choice).1.failed = s.failed ∧ (replaceFailedProxy s p choice).2 = R.ok none
+      else p ∈ (replaceFailedProxy s p choice).1.failed) ∧
     ∃ cl' v v', (replaceFailedProxy s p choice).1.findCluster name = some cl' ∧
       clusterStoreToCluster cl = R.ok v ∧ clusterStoreToCluster cl' = R.ok v' ∧
       v'.nodes.length = v.nodes.length ∧
@@ -383,8 +423,11 @@ theorem C06_failover {s : Store} {p choice name : String} {pr : ProxyRes} {cl : 
           n'.replica = (if i = k then decide (j / 2 = h) else n.replica) ∧
           (¬ (i = k ∧ j / 2 = h) → n'.address = n.address ∧ n'.proxy = n.proxy) ∧
           ((i = k ∧ j / 2 = h) → n.proxy = p ∧
-            ((n'.proxy = p ∧ n'.address = n.address ∧ ∀ a, (replaceFailedProxy s p choice).2 ≠ R.ok a) ∨
-             (∃ a, (replaceFailedProxy s p choice).2 = R.ok (some a) ∧ n'.proxy = a ∧ FreeIn s a)))) ∧
+            ((n'.proxy = p ∧ n'.address = n.address ∧
+                (if s.ordered = true then (replaceFailedProxy s p choice).2 = R.ok none
+                 else ∀ a, (replaceFailedProxy s p choice).2 ≠ R.ok a)) ∨
+             (s.ordered = false ∧
+               ∃ a, (replaceFailedProxy s p choice).2 = R.ok (some a) ∧ n'.proxy = a ∧ FreeIn s a)))) ∧
       (∀ n ∈ v'.nodes, n.proxy = p → n.replica = true ∧ n.slots = []) := by
   obtain ⟨c', hk', hh, hpa, -, -⟩ := failedAt_some hf
   rw [hk] at hk'; cases hk'
@@ -396,10 +439,30 @@ theorem C06_failover {s : Store} {p choice name : String} {pr : ProxyRes} {cl : 
     rintro i j hj ⟨rfl, rfl⟩ n hn
     rw [specView_node cl i j hj, hk] at hn; cases hn
     simp [specNode, proxyAtD, hpa]
-  rcases replaceFailedProxy_cases (choice := choice) hp hc hcl hf hk with
-    ⟨hfind, hno, -, hfailed, -, -, -⟩ | ⟨np, c1', -, hk1', -, hr, -, hfailed, hfind⟩
-  · -- no replacement
-    refine ⟨hfailed, _, specView cl, specView (afterTakeover cl k h (s.globalEpoch + 1) c), hfind,
+  -- no replacement (normal mode: error; ordered mode: by design): the cluster is the one after the takeover
+  have hnorepl : (replaceFailedProxy s p choice).1.findCluster name =
+        some (afterTakeover cl k h (s.globalEpoch + 1) c) →
+      (if s.ordered = true then (replaceFailedProxy s p choice).2 = R.ok none
+        else ∀ a, (replaceFailedProxy s p choice).2 ≠ R.ok a) →
+      ∃ cl' v v', (replaceFailedProxy s p choice).1.findCluster name = some cl' ∧
+        clusterStoreToCluster cl = R.ok v ∧ clusterStoreToCluster cl' = R.ok v' ∧
+        v'.nodes.length = v.nodes.length ∧
+        (∀ i j, i < cl.chunks.length → j < 4 →
+          ∃ n np n', vnode v i j = some n ∧ vnode v i (peerIdx j) = some np ∧ vnode v' i j = some n' ∧
+            n'.slots.map srKey =
+              (if i = k then (if j / 2 = h then [] else n.slots.map srKey ++ np.slots.map srKey)
+               else n.slots.map srKey) ∧
+            n'.replica = (if i = k then decide (j / 2 = h) else n.replica) ∧
+            (¬ (i = k ∧ j / 2 = h) → n'.address = n.address ∧ n'.proxy = n.proxy) ∧
+            ((i = k ∧ j / 2 = h) → n.proxy = p ∧
+              ((n'.proxy = p ∧ n'.address = n.address ∧
+                  (if s.ordered = true then (replaceFailedProxy s p choice).2 = R.ok none
+                   else ∀ a, (replaceFailedProxy s p choice).2 ≠ R.ok a)) ∨
+               (s.ordered = false ∧
+                 ∃ a, (replaceFailedProxy s p choice).2 = R.ok (some a) ∧ n'.proxy = a ∧ FreeIn s a)))) ∧
+        (∀ n ∈ v'.nodes, n.proxy = p → n.replica = true ∧ n.slots = []) := by
+    intro hfind hno
+    refine ⟨_, specView cl, specView (afterTakeover cl k h (s.globalEpoch + 1) c), hfind,
       view_of_posInv hpos, by rw [clusterStoreToCluster_eq, hok1]; rfl,
       by rw [specView_length, specView_length, hlen], ?_, no_master_on hnd1 hf1 hk1 hr1⟩
     intro i j hi hj
@@ -407,7 +470,25 @@ theorem C06_failover {s : Store} {p choice name : String} {pr : ProxyRes} {cl : 
     obtain ⟨n, np, n', h1, h2, h3, h4, h5, -, h7, h8⟩ := afterTakeover_owner (s.globalEpoch + 1) hk hh i j hj hx
     exact ⟨n, np, n', h1, h2, h3, h8, h7, fun _ => ⟨h4, h5⟩,
       fun hkh => ⟨honp i j hj hkh n h1, Or.inl ⟨by rw [h5]; exact honp i j hj hkh n h1, h4, hno⟩⟩⟩
+  rcases replaceFailedProxy_cases (choice := choice) hp hc hcl hf hk with
+    ⟨ho, hfind, hno, -, hfailed, -, -, -⟩ | ⟨ho, np, c1', -, hk1', -, hr, -, hfailed, hfind⟩ |
+    ⟨ho, hfind, hres, -, hfailed, -, -, -⟩
+  · -- normal mode, no replacement
+    have hno' : (if s.ordered = true then (replaceFailedProxy s p choice).2 = R.ok none
+        else ∀ a, (replaceFailedProxy s p choice).2 ≠ R.ok a) := by
+      rw [if_neg (by rw [ho]; exact Bool.false_ne_true)]; exact hno
+    refine ⟨by rw [if_neg (by rw [ho]; exact Bool.false_ne_true)]; exact hfailed, hnorepl hfind hno'⟩
+  rotate_left
+  · -- ordered mode: takeover, `Ok(None)`, the failed set untouched
+    have hno' : (if s.ordered = true then (replaceFailedProxy s p choice).2 = R.ok none
+        else ∀ a, (replaceFailedProxy s p choice).2 ≠ R.ok a) := by
+      rw [if_pos ho]; exact hres
+    refine ⟨by rw [if_pos ho]; exact ⟨hfailed, hres⟩, hnorepl hfind hno'⟩
   · -- replacement by `np`
+    have hfailed : (if s.ordered = true then
+        (replaceFailedProxy s p choice).1.failed = s.failed ∧ (replaceFailedProxy s p choice).2 = R.ok none
+        else p ∈ (replaceFailedProxy s p choice).1.failed) := by
+      rw [if_neg (by rw [ho]; exact Bool.false_ne_true)]; exact hfailed
     rw [hk1] at hk1'; cases hk1'
     have hfree : FreeIn s np.addr :=
       replaceFailedProxy_replacement_free (s' := (replaceFailedProxy s p choice).1)
@@ -442,7 +523,7 @@ theorem C06_failover {s : Store} {p choice name : String} {pr : ProxyRes} {cl : 
       refine ⟨n, np', n', a1, a2, a4, by rw [a9, a8], by rw [a10, a7], ?_, ?_⟩
       · intro hn; obtain ⟨b1, b2⟩ := a11 hn; exact ⟨by rw [b1, a5], by rw [b2, a6]⟩
       · intro hkh
-        exact ⟨honp i j hj hkh n a1, Or.inr ⟨np.addr, hr, a12 hkh, hfree⟩⟩
+        exact ⟨honp i j hj hkh n a1, Or.inr ⟨ho, np.addr, hr, a12 hkh, hfree⟩⟩
     · intro n hn hpn
       obtain ⟨i, j, y, hj, hy, hv, -⟩ := mem_specView_nodes hn
       have hi : i < cl.chunks.length := by
@@ -465,6 +546,42 @@ theorem C06_failover {s : Store} {p choice name : String} {pr : ProxyRes} {cl : 
           List.mem_of_getElem? a3
         obtain ⟨r1, r2⟩ := no_master_on hnd1 hf1 hk1 hr1 n1 hmem hp1
         exact ⟨by rw [a10, r1], by rw [a9, r2]⟩
+
+/-- **C06 failover in ordered-proxy mode** (`enable_ordered_proxy = true`; corollary of `C06_failover`):
+the call answers `Ok(None)`, the failed set is untouched, ownership moves exactly as in (a) — the
+ranges of the failed half go to the peer nodes on the partner proxy — and *every* node keeps its
+address and proxy: the failed proxy is not replaced, its nodes stay in the chunk as replicas
+without slots. -/
+theorem C06_failover_ordered {s : Store} {p choice name : String} {pr : ProxyRes} {cl : Cluster}
+    {k h : Nat} {c : Chunk} (ho : s.ordered = true)
+    (hp : s.findProxy p = some pr) (hc : pr.cluster = some name)
+    (hcl : s.findCluster name = some cl) (hpos : PosInv cl) (hnd : cl.proxyAddrs.Nodup)
+    (hf : failedAt p cl.chunks = some (k, h)) (hk : cl.chunks[k]? = some c) :
+    (replaceFailedProxy s p choice).1.failed = s.failed ∧ (replaceFailedProxy s p choice).2 = R.ok none ∧
+    ∃ cl' v v', (replaceFailedProxy s p choice).1.findCluster name = some cl' ∧
+      clusterStoreToCluster cl = R.ok v ∧ clusterStoreToCluster cl' = R.ok v' ∧
+      v'.nodes.length = v.nodes.length ∧
+      (∀ i j, i < cl.chunks.length → j < 4 →
+        ∃ n np n', vnode v i j = some n ∧ vnode v i (peerIdx j) = some np ∧ vnode v' i j = some n' ∧
+          n'.slots.map srKey =
+            (if i = k then (if j / 2 = h then [] else n.slots.map srKey ++ np.slots.map srKey)
+             else n.slots.map srKey) ∧
+          n'.replica = (if i = k then decide (j / 2 = h) else n.replica) ∧
+          n'.address = n.address ∧ n'.proxy = n.proxy) ∧
+      (∀ n ∈ v'.nodes, n.proxy = p → n.replica = true ∧ n.slots = []) := by
+  obtain ⟨hmode, cl', v, v', h1, h2, h3, h4, h5, h6⟩ :=
+    C06_failover (choice := choice) hp hc hcl hpos hnd hf hk
+  rw [if_pos ho] at hmode
+  refine ⟨hmode.1, hmode.2, cl', v, v', h1, h2, h3, h4, ?_, h6⟩
+  intro i j hi hj
+  obtain ⟨n, np, n', a1, a2, a3, a4, a5, a6, a7⟩ := h5 i j hi hj
+  refine ⟨n, np, n', a1, a2, a3, a4, a5, ?_⟩
+  by_cases hkh : i = k ∧ j / 2 = h
+  · obtain ⟨b1, b2⟩ := a7 hkh
+    rcases b2 with ⟨c1, c2, -⟩ | ⟨hno, -⟩
+    · exact ⟨c2, by rw [c1, b1]⟩
+    · rw [ho] at hno; cases hno
+  · exact a6 hkh
 
 /-- **(a), (b), (d) for the views served under a migration limit.** `limit_migration` (any `limit`)
 reads neither role positions nor epochs. If it succeeds on the stored cluster (`lc`, view `v`) it
@@ -521,10 +638,15 @@ cluster in every prefix of the history) remains as a premise. `C06_reachable_*` 
 the lifted invariants as premises. -/
 
 /-- clauses (a), (b), (c), (e) and the replacement clause for the step `failover p choice` at store `s`,
-`p` registered and tagged with cluster `name` -/
+`p` registered and tagged with cluster `name`. Both modes: the only mode-dependent clause is the
+failed mark (normal mode: `p` is marked failed; ordered mode: the failed set is untouched and the
+call answers `Ok(None)` — takeover without replacement). -/
 def FailoverClauses (s : Store) (p choice name : String) : Prop :=
     ∃ cl k h, s.findCluster name = some cl ∧ failedAt p cl.chunks = some (k, h) ∧
-      p ∈ (stepFull s (Op.failover p choice)).1.failed ∧
+      (if s.ordered = true then
+          (stepFull s (Op.failover p choice)).1.failed = s.failed ∧
+          (replaceFailedProxy s p choice).2 = R.ok none
+        else p ∈ (stepFull s (Op.failover p choice)).1.failed) ∧
       takeoverMaster (takeoverMaster s name p).1 name p = ((takeoverMaster s name p).1.bump, R.ok ()) ∧
       ∃ cl' v v', (stepFull s (Op.failover p choice)).1.findCluster name = some cl' ∧
         clusterStoreToCluster cl = R.ok v ∧ clusterStoreToCluster cl' = R.ok v' ∧
@@ -655,11 +777,11 @@ theorem C06_epochs_run (ops : List Op) (hb : ∀ k, Plan.PlanBound (run (ops.tak
 `e:1` is the spare. Everything below is evaluated by the kernel (`decide +kernel`). -/
 
 def exOps : List Op := [
-  .addProxy "a:1" "a:11" "a:12" none,
-  .addProxy "b:1" "b:11" "b:12" none,
-  .addProxy "c:1" "c:11" "c:12" none,
-  .addProxy "d:1" "d:11" "d:12" none,
-  .addProxy "e:1" "e:11" "e:12" none,
+  .addProxy "a:1" "a:11" "a:12" none none,
+  .addProxy "b:1" "b:11" "b:12" none none,
+  .addProxy "c:1" "c:11" "c:12" none none,
+  .addProxy "d:1" "d:11" "d:12" none none,
+  .addProxy "e:1" "e:11" "e:12" none none,
   .addCluster "k" 4 [("a:1", "b:1")],
   .addNodes "k" 4 [("c:1", "d:1")],
   .migrate "k"]
@@ -850,6 +972,59 @@ example : exKeys exF2 "k" = some
       [[⟨8, "a:1", "a:11", "c:1", "c:11"⟩, ⟨9, "e:1", "e:11", "d:1", "d:11"⟩],
        [⟨8, "a:1", "a:11", "c:1", "c:11"⟩, ⟨9, "e:1", "e:11", "d:1", "d:11"⟩]] := by
   refine ⟨?_, ?_, ?_, ?_⟩ <;> decide +kernel
+
+/-! ### ordered-proxy mode
+
+`ordS`: a broker started with `enable_ordered_proxy = true`; four proxies **on one host** with the
+indices 0..3, cluster `k` on indices 0,1, scaled out onto 2,3, migration started. -/
+
+def ordOps : List Op := [
+  .setOrdered,
+  .addProxy "a:1" "a:11" "a:12" (some "h") (some 0),
+  .addProxy "b:1" "b:11" "b:12" (some "h") (some 1),
+  .addProxy "c:1" "c:11" "c:12" (some "h") (some 2),
+  .addProxy "d:1" "d:11" "d:12" (some "h") (some 3),
+  .addCluster "k" 4 [("a:1", "b:1")],
+  .addNodes "k" 4 [("c:1", "d:1")],
+  .migrate "k"]
+
+def ordS : Store := run ordOps
+
+theorem ord_bound : ∀ k, Plan.PlanBound (run (ordOps.take k)) := by
+  have hsmall : ∀ k, k < 9 → ∀ c ∈ (run (ordOps.take k)).clusters, c.chunks.length * 2 ≤ SLOT_NUM := by
+    decide +kernel
+  intro k
+  by_cases hk : k < 9
+  · exact hsmall k hk
+  · have : ordOps.take k = ordOps.take 8 := by
+      rw [List.take_of_length_le (by simp [ordOps]; omega), List.take_of_length_le (by simp [ordOps])]
+    rw [this]; exact hsmall 8 (by omega)
+
+/-- `C06_failover_run` / `C06_epochs_run` on the ordered-mode history -/
+example : ordS.ordered = true ∧ FailoverClauses ordS "a:1" "-" "k" ∧ EpochClauses ordS "a:1" "k" := by
+  have ho : ordS.ordered = true := by decide +kernel
+  have g : (ordS.findProxy "a:1").map (·.cluster) = some (some "k") := by decide +kernel
+  cases hp : ordS.findProxy "a:1" with
+  | none => rw [hp] at g; cases g
+  | some pa =>
+    rw [hp] at g
+    simp only [Option.map_some, Option.some.injEq] at g
+    exact ⟨ho, C06_failover_run ordOps ord_bound "a:1" "-" "k" pa hp g,
+      C06_epochs_run ordOps ord_bound "a:1" "k" pa hp g⟩
+
+/-- ordered failover of half 0 of the source chunk: node 0's ranges go to its peer node 3, `a:1` stays
+in the chunk (no replacement, not marked failed), the call answers `Ok(None)` after two epoch bumps;
+the migration out of part 0 and its twin are re-issued with epoch 8 -/
+example : exOk (stepFull ordS (.failover "a:1" "-")).2 = true ∧
+    exKeys (step ordS (.failover "a:1" "-")) "k" = some
+      [[], [], [([(8192, 12287)], 0), ([(12288, 16383)], 1)], [([(0, 4095)], 0), ([(4096, 8191)], 1)],
+       [([(4096, 8191)], 2)], [], [([(12288, 16383)], 2)], []] ∧
+    exEpochs (step ordS (.failover "a:1" "-")) "k" = [(2, [8], [7]), (0, [8], [7])] ∧
+    (step ordS (.failover "a:1" "-")).failed = [] ∧
+    (step ordS (.failover "a:1" "-")).globalEpoch = ordS.globalEpoch + 2 ∧
+    ((step ordS (.failover "a:1" "-")).findCluster "k").map (fun c => c.chunks.map (·.proxy0)) =
+      some ["a:1", "c:1"] := by
+  refine ⟨?_, ?_, ?_, ?_, ?_, ?_⟩ <;> decide +kernel
 
 /-- keys held by the eight nodes in the view served under a migration limit -/
 def exKeysL (s : Store) (name : String) (limit : Nat) : Option (List (List Key)) :=
